@@ -354,7 +354,7 @@ def g_text(rng, env, stream):
 
 
 def generate(ctx):
-    n = ctx.pick(4200, 120000)
+    n = ctx.pick(11000, 150000)
     for i in range(n):
         rng = ctx.rng.fork('case', i)
         env = Env()
